@@ -2,16 +2,14 @@
 from __future__ import annotations
 
 import ast
-import itertools
 from typing import Dict, List, Optional, Set
 
 from ..cfg import cfg_of
 from ..facts import catalogue, catalogue_literal, emission_sites, value_set
-from ..fold import try_fold, fold_in_fn
+from ..fold import try_fold
 from ..minieval import Evaluator, Obj, Unsupported
 from ..model import AnalysisError, ancestors, parent, text, walk_fn
 from .c05 import _cfg_node_of_expr
-from .c07 import _value_when_debug_zero
 
 LEVELS = {"Error", "Notice"}
 
@@ -574,7 +572,8 @@ def rule_formatters(run, prog):
         files = []
         plan = [("zz/zz.c", [("Error", (9, 1)), ("Notice", (4, 7)), ("Error", (4, 2)), ("Error", (1, 1))]),
                 ("aa.c", []),
-                ("mm.h", [("Notice", (2, 2)), ("Error", (2, 1))])]
+                ("mm.h", [("Notice", (2, 2)), ("Error", (2, 1))]),
+                ("zz/zz.c", [("Notice", (5, 5))])]          # the same path mentioned twice: two File objects, two entries
         for path, diags in plan:
             ds = []
             for i, (lv, pos) in enumerate(diags):
@@ -601,7 +600,7 @@ def rule_formatters(run, prog):
     b0 = FormatterBench(prog)
     _, plan = build(b0)
     want_names = [p for p, _ in plan]
-    want_diags = {posixpath.basename(p): sorted((pos, lv) for lv, pos in d) for p, d in plan}
+    want_diags = [sorted((pos, lv) for lv, pos in d) for p, d in plan]
 
     def parsed(c):
         out = outs.get(c.name)
@@ -626,9 +625,9 @@ def rule_formatters(run, prog):
         if files is None:
             bad = problems.get(c.name)
         else:
-            for n, st, diags in files:
+            for i, (n, st, diags) in enumerate(files):
                 got = [((ln, col), lv) for lv, code, ln, col, txt in diags]
-                want = want_diags.get(posixpath.basename(str(n)))
+                want = want_diags[i] if i < len(want_diags) and names == [posixpath.basename(p) for p in want_names] else None
                 if want is not None and got != want:
                     bad = bad or f"{posixpath.basename(str(n))}: diagnostics shown as {got}, file.errors hands out {want}"
         run.ob("R-8.5", f"{m.key}::errors-by-iteration", bad is None,
